@@ -196,55 +196,82 @@ def sequential_job(job):
     import semantiva.execution.transport.in_memory as mod
     bad = []
 
-    def run(name, ops):
+    model_cases = []
+
+    def run(name, ops, model=True):
         tr = mod.InMemorySemantivaTransport()
         tr.connect()
         got, k = [], 0
         pubs = []
         held = {}
+        mops, nsub = [], [0]          # the same sequence as operations of Model/Subscription.v
+
+        def new_sub(pat):
+            sub = tr.subscribe(pat)
+            mops.append(["open", pat])
+            nsub[0] += 1
+            return sub, nsub[0] - 1
+
+        def advance(it, idx):
+            mops.append(["next", idx])
+            try:
+                return next(it)
+            except StopIteration:
+                return None
         for op in ops:
             if op[0] == "pub":
                 for _ in range(op[2]):
                     tr.publish(op[1], [0, k, op[1]], {})
                     pubs.append([0, k, op[1]])
+                    mops.append(["pub", op[1]])
                     k += 1
             elif op[0] == "take":          # consume at most n messages of a pattern, then close the subscription
-                sub = tr.subscribe(op[1])
+                sub, idx = new_sub(op[1])
+                it = iter(sub)
                 n = 0
-                for m in sub:
+                while n < op[2]:
+                    m = advance(it, idx)
+                    if m is None:
+                        break
                     got.append(m.data)
                     n += 1
-                    if n >= op[2]:
-                        break
                 sub.close()
+                mops.append(["close", idx])
             elif op[0] == "open":          # take n messages and keep the subscription (its iterator) open
-                held["sub"] = tr.subscribe(op[1])
+                held["sub"], held["idx"] = new_sub(op[1])
                 held["it"] = iter(held["sub"])
                 for _ in range(op[2]):
-                    try:
-                        got.append(next(held["it"]).data)
-                    except StopIteration:
+                    m = advance(held["it"], held["idx"])
+                    if m is None:
                         break
+                    got.append(m.data)
             elif op[0] == "mark-closed":   # close() the subscription but keep advancing its iterator (close inside a `for` body
                                            # without break; close() from another thread): nothing more may be consumed
                 if held.get("sub") is None:
-                    held["sub"] = tr.subscribe(op[1])
+                    held["sub"], held["idx"] = new_sub(op[1])
                     held["it"] = iter(held["sub"])
                 held["sub"].close()
+                mops.append(["close", held["idx"]])
                 for _ in range(op[2]):
-                    try:
-                        got.append(next(held["it"]).data)
-                    except StopIteration:
+                    m = advance(held["it"], held["idx"])
+                    if m is None:
                         break
+                    got.append(m.data)
             elif op[0] == "close":         # stop iterating and close the held subscription
                 it, sub = held.pop("it", None), held.pop("sub", None)
+                idx = held.pop("idx", None)
                 if it is not None and hasattr(it, "close"):
                     it.close()
                 if sub is not None:
                     sub.close()
+                    mops.append(["close", idx])
             elif op[0] == "drain":
+                mops.append(["drain", op[1]])
                 for m in tr.subscribe(op[1]):
                     got.append(m.data)
+        if model and len(pubs) <= 60:
+            model_cases.append({"name": name, "ops": mops, "delivered": [p[1] for p in got],
+                                "left": [[c, [m.data[1] for m in list(q)]] for c, (q, _l) in list(tr._queues.items())]})
         keys = [tuple(p) for p in got]
         keyset = set(keys)
         if len(keyset) != len(keys):
@@ -299,9 +326,35 @@ def sequential_job(job):
     run("close() before the first next()", [("pub", "c", 2), ("mark-closed", "c", 1), ("close",), ("drain", "c")])
     run("close() of a wildcard subscription mid-way", [("pub", "a.x", 2), ("pub", "a.y", 2), ("open", "a.*", 2), ("mark-closed", "a.*", 3), ("close",), ("drain", "*")])
     # a backlog: many undelivered messages on one channel (a late consumer), two channels, a wildcard drain
-    run("backlog of 70000 messages on one channel, late consumer", [("pub", "bulk", 70000), ("drain", "bulk")])
-    run("backlog on two channels, wildcard drain", [("pub", "b.x", 9000), ("pub", "b.y", 9000), ("pub", "b.x", 10), ("drain", "b.*")])
-    return {"oracle": bad, "file": mod.__file__}
+    run("backlog of 70000 messages on one channel, late consumer", [("pub", "bulk", 70000), ("drain", "bulk")], model=False)
+    run("backlog on two channels, wildcard drain", [("pub", "b.x", 9000), ("pub", "b.y", 9000), ("pub", "b.x", 10), ("drain", "b.*")], model=False)
+    # random operation sequences of one consumer (every one ends with a full drain, so nothing may be lost)
+    import random as _random
+    rng = _random.Random(int(job.get("seed", 0)) * 7 + 3)
+    chs, pats_ = ["a", "a.x", "a.y", "b", "jobs.1.cfg"], ["a", "a.*", "*", "a.?", "[ab]*", "jobs.[12].cfg", "b"]
+    for t in range(int(job.get("random_sequences", 60))):
+        ops, opened = [], False
+        for _ in range(rng.randint(3, 10)):
+            r = rng.random()
+            if r < 0.4:
+                ops.append(("pub", rng.choice(chs), rng.randint(1, 3)))
+            elif r < 0.55:
+                ops.append(("take", rng.choice(pats_), rng.randint(1, 3)))
+            elif r < 0.7 and not opened:
+                ops.append(("open", rng.choice(pats_), rng.randint(0, 2)))
+                opened = True
+            elif r < 0.85 and opened:
+                ops.append(("mark-closed", "*", rng.randint(1, 2)))
+            elif opened:
+                ops.append(("close",))
+                opened = False
+            else:
+                ops.append(("drain", rng.choice(pats_)))
+        if opened:
+            ops.append(("close",))
+        ops.append(("drain", "*"))
+        run("random sequence %d" % t, ops)
+    return {"oracle": bad, "file": mod.__file__, "model_cases": model_cases}
 
 
 def main():
